@@ -60,7 +60,7 @@ impl Property for C09 {
         if !inst.removed_constraints.is_empty() {
             ctx.label("pre-removed");
         }
-        if inst.constraints.windows(2).any(|w| w[0].id + 1 != w[1].id) || inst.constraints.first().map(|c| c.id != 0).unwrap_or(false) {
+        if inst.constraints.windows(2).any(|w| w[0].id.wrapping_add(1) != w[1].id) || inst.constraints.first().map(|c| c.id != 0).unwrap_or(false) {
             ctx.label("noncontiguous-ids");
         }
         let nontriv = inst.constraints.iter().filter(|c| Poly::from_function(&cfn(c)).degree() >= 1).count() >= 2 || !inst.removed_constraints.is_empty();
